@@ -24,8 +24,8 @@ IPTEXT_QUICK = g('iptext', iprand=400)
 IPTEXT_THOROUGH = g('iptext', iprand=20000)
 TLV_QUICK = g('tlv', tlvrand=150, tlvtrunc=150, tlvbig=10, tlvmany=6, tlvprog=60)
 TLV_THOROUGH = g('tlv', tlvrand=6000, tlvtrunc=6000, tlvbig=56, tlvmany=100, tlvprog=3000)
-BUILDER_QUICK = g('builder', bseq=120, bsetlen=120, btotal=10, bpairs=40, bover=18)
-BUILDER_THOROUGH = g('builder', bseq=5000, bsetlen=5000, btotal=200, bpairs=1500, bover=360)
+BUILDER_QUICK = g('builder', bseq=120, bsetlen=120, btotal=10, bpairs=40, bover=18, bbatch=15)
+BUILDER_THOROUGH = g('builder', bseq=5000, bsetlen=5000, btotal=200, bpairs=1500, bover=360, bbatch=210)
 
 
 def model(module, quick, thorough, need=(), workers=8, cap=None, tq=600, tt=3000):
@@ -111,7 +111,7 @@ PROPS = {
         rule='every stream event (the three verdicts on the same buffer); non-trivial = non-empty buffer',
     ),
     'C07': dict(
-        gens=dict(quick=g('builder', bwire=160), thorough=g('builder', bwire=6000)),
+        gens=dict(quick=g('builder', bwire=160, btypes=300), thorough=g('builder', bwire=6000, btypes=8448)),
         models=[MC_BUILDER],
         rule='builder sessions with valid codes and TLV-only payloads, followed by a parse of what was built; '
              'non-trivial = a build or parse-back whose payload fits in 65535 bytes; distinct = distinct call sequences',
